@@ -117,8 +117,8 @@ pub fn strategy() -> BoxedStrategy<Case> {
 pub fn streams() -> Vec<Box<dyn AnyStream>> {
     vec![Box::new(Stream::<Case> {
         name: "sugar",
-        quick: 20_000,
-        thorough: 500_000,
+        quick: 30_000,
+        thorough: 2_000_000,
         source: Source::Gen(Box::new(strategy)),
         check: Box::new(check),
     })]
